@@ -1,8 +1,9 @@
 """C02 — an actor processes one message at a time."""
 from . import inbox_common as IC
+from . import proc_common as PC
 from .inbox_common import TRUSTED_BASE, ASSUMPTIONS
 
-COQ_FILES = IC.COQ_FILES
+COQ_FILES = IC.COQ_FILES + ["Proc.v", "ProcExec.v", "ProcSchedExec.v"]
 THEOREMS = ["C02_token_invariant", "C02_receive_mutex", "C02_handoff", "C0123_oracle_sound"]
 RULE = ("configurations (senders x numbered messages, capacity 1-2, Start racing or not, optional pill) of the real "
         "actor/inbox.go run under the deterministic scheduler: all schedules by DFS with visited-state pruning for the small "
@@ -18,4 +19,4 @@ class Part(IC.InboxSched):
     prop = 2
 
 
-PARTS = [Part(), IC.DeliverRestart()]
+PARTS = [Part(), IC.DeliverRestart(), PC.ProcSched()]
